@@ -51,3 +51,21 @@ func updatePeeringTrustBundlesTableIndexes(tx WriteTxn, idx uint64, _ string) er
 	}
 	return nil
 }
+
+// restorePeeringTableIndexes is the snapshot-restore variant of updatePeeringTableIndexes: rows
+// are restored in name order, not in write order, and after the index table itself, so the
+// table index must only ever be raised.
+func restorePeeringTableIndexes(tx WriteTxn, idx uint64, _ string) error {
+	if err := indexUpdateMaxTxn(tx, idx, tablePeering); err != nil {
+		return fmt.Errorf("failed updating table index: %w", err)
+	}
+	return nil
+}
+
+// restorePeeringTrustBundlesTableIndexes: see restorePeeringTableIndexes.
+func restorePeeringTrustBundlesTableIndexes(tx WriteTxn, idx uint64, _ string) error {
+	if err := indexUpdateMaxTxn(tx, idx, tablePeeringTrustBundles); err != nil {
+		return fmt.Errorf("failed updating table index: %w", err)
+	}
+	return nil
+}
